@@ -122,7 +122,8 @@ def enumerated(tier, seed):
     corpus = [c for c in c04.corpus_cases() if "import " not in c["files"][c["entry"]]]
     for c in corpus:
         c["files"] = {c["entry"]: c["files"][c["entry"]]}
-    return corpus + c04.size_cases() + c04.string_cases(tier, seed)
+    labels = [dict(c, family="labels") for c in c04.label_cases()]
+    return corpus + c04.size_cases() + labels + c04.string_cases(tier, seed)
 
 
 def strategy(tier):
